@@ -55,9 +55,10 @@ CHECKS = {
                "Theorems (props/C18.v): lineno/colno agree with an independent line/column specification (text split at LF); every rejection is reported at the start offset and length of a token of the text, at the place of the lexical error, or at the end of the text; the machine is a fold over the token list that stops at the first failure, so the report depends only on the tokens up to the failing one. The per-category choice of the offending token is exercised on the implementation with the expected offset computed independently (LF/CRLF, multi-byte comments, arbitrary tails).", level="proof"),
     "C20": _sv(sieve_checks.check_C20, "Coq proof generic in the tables (argcheck_correct for every well-formed definition) + correspondence with definitions registered at run time",
                "Theorems (props/C20.v), generic in the definition and in the tables: for every definition of the documented shape the argument interpreter accepts exactly the uses the definition allows and records the arguments under the defined names; a registered command is found in any letter case, demands its extension, leaves other names alone; unregistered names stay unknown; registration preserves table well-formedness. Definitions generated at run time are registered both in the real library and in the model and compared (verdict, tree, re-parsed serialisation).", level="proof"),
-    "C12": {"level": "other", "coq": ["factory/Ops.vo"], "drivers": ["factory"], "run": factory_checks.check_C12,
+    "C12": {"level": "proof", "coq": ["factory/OpsFacts.vo"], "drivers": ["factory"], "run": factory_checks.check_C12,
             "technique": "Coq proof (refinement of the FiltersSet operations to an ordered uniquely-named list, by induction over operation sequences) + model/implementation correspondence",
-            "level_text": PENDING, "level_note": "Kernel + extraction + correspondence check; filter contents abstracted to plain command / if-false wrapper."},
+            "level_text": "Theorems (props/C12.v): every editing operation of the FiltersSet model returns what the reference list operation returns and maps representable sets to the representation of the reference result, for all histories from the empty set with no length bound; in every reachable state the enabled flag, is_filter_disabled and the if-false wrapper agree and getfilter returns the filter's own content; on the reference list names stay unique, update/replace/enable/disable rewrite one entry in place, move swaps with exactly one neighbour, unknown names change nothing. The model is tied to factory.py by comparing, after every step of exhaustive (all sequences up to the bound over 3 names x 7 operation kinds) and random operation sequences, every return value/exception and the whole observable state; the reference list is compared with the implementation directly too.",
+            "level_note": "Kernel + extraction + correspondence check; filter contents abstracted to plain command / if-false wrapper (all the editing operations inspect)."},
     "C06": {"level": "other", "coq": ["factory/Text.vo", "sieve/Printer.vo", "gen/GenTables.vo"], "drivers": ["factory", "sieve"], "run": factory_checks.check_C06,
             "technique": "Coq proof (every quoted value lexes as exactly one string token; quote_list token structure) + correspondence of the quoting model + strict validation of generated scripts",
             "level_text": PENDING, "level_note": "Kernel + extraction + correspondence; __create_filter's per-kind assembly is exercised on the implementation (strict validator, require coverage, skeleton independence), not modelled."},
